@@ -270,7 +270,7 @@ class TemplateCompiler(Coder):
 
     def process_bitmapped_descriptor(self, state, bit_operator, descriptor):
         state_properties = {
-            'new_bytes': state.new_nbytes,
+            'new_nbytes': state.new_nbytes,
             'nbits_offset': state.nbits_offset,
             'scale_offset': state.scale_offset,
             'bsr_modifier': state.bsr_modifier,
